@@ -1,20 +1,105 @@
-"""Float semantics: z3 Float64 (exact, RNE) or Real (assumption recorded). Filled in for the DPT properties."""
+"""
+Float semantics.
+
+mode 'fp'   : z3 Float64, round-nearest-even: exact CPython semantics on IEEE-754 hardware.
+mode 'real' : z3 Real; the evidence records "machine float arithmetic treated as mathematical".
+
+Every SFloat additionally carries a conservative interval `iv = (lo, hi)` of python floats (or None =
+may be anything, incl. NaN/inf) maintained by outward-rounded interval arithmetic, so that "can this be
+NaN / inf / zero" questions are answered without a (slow) floating point solver query.
+"""
 
 from __future__ import annotations
 
 import ast
+import math
 
 import z3
 
-from .core import SBool, SFloat, SInt, SVal, Unsupported, iexpr
+from .core import BSeg, SBool, SBytes, SFloat, SInt, SVal, Unsupported, iexpr
 
 F64 = z3.Float64()
+F32 = z3.Float32()
 RNE = z3.RNE()
 RTZ = z3.RTZ()
+RTP = z3.RTP()
+RTN = z3.RTN()
 
 
 def mode_of(I):
     return I.float_mode
+
+
+def _down(x):
+    return math.nextafter(x, -math.inf) if math.isfinite(x) else x
+
+
+def _up(x):
+    return math.nextafter(x, math.inf) if math.isfinite(x) else x
+
+
+def _widen(lo, hi):
+    if lo != lo or hi != hi:
+        return None
+    return (_down(lo), _up(hi))
+
+
+def iv_of(I, v):
+    """Conservative interval of a number, or None."""
+    if isinstance(v, SFloat):
+        return getattr(v, "iv", None)
+    if isinstance(v, bool):
+        return (float(v), float(v))
+    if isinstance(v, int):
+        try:
+            f = float(v)
+        except OverflowError:
+            return None
+        return _widen(f, f) if float(int(f)) != v or abs(v) > 2**53 else (f, f)
+    if isinstance(v, float):
+        if v != v or math.isinf(v):
+            return None
+        return (v, v)
+    if isinstance(v, SBool):
+        return (0.0, 1.0)
+    if isinstance(v, SInt):
+        if v.nb is not None and v.nb <= 1000:
+            return (0.0, float((1 << v.nb) - 1))
+        e = v.e
+        for bound in (1 << 8, 1 << 16, 1 << 32, 1 << 53, 1 << 64):
+            if I.path.implied(z3.And(e >= -bound, e <= bound)):
+                lo, hi = -float(bound), float(bound)
+                if I.path.implied(e >= 0):
+                    lo = 0.0
+                return (lo, hi)
+        return None
+    return None
+
+
+def _iv_binop(op, a, b):
+    if a is None or b is None:
+        return None
+    (al, ah), (bl, bh) = a, b
+    try:
+        if op is ast.Add:
+            return _widen(al + bl, ah + bh)
+        if op is ast.Sub:
+            return _widen(al - bh, ah - bl)
+        if op is ast.Mult:
+            c = [al * bl, al * bh, ah * bl, ah * bh]
+            return _widen(min(c), max(c))
+        if op is ast.Div:
+            if bl <= 0.0 <= bh:
+                return None
+            c = [al / bl, al / bh, ah / bl, ah / bh]
+            return _widen(min(c), max(c))
+    except (OverflowError, ZeroDivisionError):
+        return None
+    return None
+
+
+def _finite(iv):
+    return iv is not None and math.isfinite(iv[0]) and math.isfinite(iv[1])
 
 
 def fexpr(I, v):
@@ -27,7 +112,7 @@ def fexpr(I, v):
             v = int(v)
         if isinstance(v, int):
             if abs(v) > 2**53:
-                return z3.fpToFP(RNE, z3.IntVal(v) * z3.RealVal(1), F64)
+                return z3.fpToFP(RNE, z3.ToReal(z3.IntVal(v)), F64)
             return z3.FPVal(float(v), F64)
         if isinstance(v, float):
             return z3.FPVal(v, F64)
@@ -39,19 +124,25 @@ def fexpr(I, v):
         if isinstance(v, int):
             return z3.RealVal(v)
         if isinstance(v, float):
-            if v != v or v in (float("inf"), float("-inf")):
-                raise Unsupported("non-finite float constant in REAL mode")
-            from fractions import Fraction
-
-            fr = Fraction(v)
-            return z3.RealVal(fr.numerator) / z3.RealVal(fr.denominator)
+            return fexpr_real(v)
         if isinstance(v, (SInt, SBool)):
             return z3.ToReal(iexpr(v))
     raise Unsupported(f"not a number: {v!r}")
 
 
-def mk(I, e):
-    return SFloat(e, mode_of(I))
+def fexpr_real(v):
+    if v != v or v in (float("inf"), float("-inf")):
+        raise Unsupported("non-finite float constant in REAL mode")
+    from fractions import Fraction
+
+    fr = Fraction(v)
+    return z3.RealVal(fr.numerator) / z3.RealVal(fr.denominator)
+
+
+def mk(I, e, iv=None):
+    f = SFloat(e, mode_of(I))
+    f.iv = iv
+    return f
 
 
 def is_zero(I, e):
@@ -63,8 +154,14 @@ def is_zero(I, e):
 def nonzero(I, v):
     e = v.e
     if v.mode == "fp":
-        return z3.Not(z3.fpIsZero(e))
+        return z3.And(z3.Not(z3.fpIsZero(e)))
     return e != 0
+
+
+def _fpcond(I, e):
+    """SBool over floating point terms: branching on it does not ask the solver for feasibility."""
+    b = I.sbool(e)
+    return b
 
 
 def binop(I, op, a, b):
@@ -72,22 +169,34 @@ def binop(I, op, a, b):
     if m == "real":
         I.path.assumed_real = True
     ae, be = fexpr(I, a), fexpr(I, b)
+    ia, ib = iv_of(I, a), iv_of(I, b)
     if op is ast.Add:
-        return mk(I, z3.fpAdd(RNE, ae, be) if m == "fp" else ae + be)
+        return mk(I, z3.fpAdd(RNE, ae, be) if m == "fp" else ae + be, _iv_binop(op, ia, ib))
     if op is ast.Sub:
-        return mk(I, z3.fpSub(RNE, ae, be) if m == "fp" else ae - be)
+        return mk(I, z3.fpSub(RNE, ae, be) if m == "fp" else ae - be, _iv_binop(op, ia, ib))
     if op is ast.Mult:
-        return mk(I, z3.fpMul(RNE, ae, be) if m == "fp" else ae * be)
+        return mk(I, z3.fpMul(RNE, ae, be) if m == "fp" else ae * be, _iv_binop(op, ia, ib))
     if op is ast.Div:
-        if I.path.decide(is_zero(I, be)):
-            I.raise_py(ZeroDivisionError, "float division by zero")
-        return mk(I, z3.fpDiv(RNE, ae, be) if m == "fp" else ae / be)
+        if isinstance(b, (int, float)) and not isinstance(b, bool):
+            if b == 0:
+                I.raise_py(ZeroDivisionError, "float division by zero")
+        elif ib is not None and not (ib[0] <= 0.0 <= ib[1]):
+            pass
+        else:
+            zc = is_zero(I, be) if not isinstance(b, (SInt, SBool)) else (iexpr(b) == 0)
+            if I.path.decide(zc):
+                I.raise_py(ZeroDivisionError, "float division by zero")
+        return mk(I, z3.fpDiv(RNE, ae, be) if m == "fp" else ae / be, _iv_binop(op, ia, ib))
     if op is ast.Pow:
         if isinstance(b, int) and 0 <= b <= 8:
-            r = fexpr(I, 1)
-            for _ in range(b):
-                r = z3.fpMul(RNE, r, ae) if m == "fp" else r * ae
-            return mk(I, r)
+            r = a
+            if b == 0:
+                return 1.0
+            for _ in range(b - 1):
+                r = binop(I, ast.Mult, r, a)
+            return r
+    if op is ast.FloorDiv or op is ast.Mod:
+        raise Unsupported("float // and % have no encoding")
     raise Unsupported(f"float operator {op.__name__}")
 
 
@@ -97,65 +206,146 @@ def truediv(I, a, b):
 
 
 def unary(I, op, v):
+    iv = getattr(v, "iv", None)
     if op is ast.USub:
-        return mk(I, z3.fpNeg(v.e) if v.mode == "fp" else -v.e)
+        return mk(I, z3.fpNeg(v.e) if v.mode == "fp" else -v.e, None if iv is None else (-iv[1], -iv[0]))
     if op is ast.UAdd:
         return v
     raise Unsupported("unary op on float")
 
 
 def fabs(I, v):
-    return mk(I, z3.fpAbs(v.e) if v.mode == "fp" else z3.If(v.e < 0, -v.e, v.e))
+    iv = getattr(v, "iv", None)
+    niv = None
+    if iv is not None:
+        lo, hi = iv
+        niv = (0.0 if lo <= 0.0 <= hi else min(abs(lo), abs(hi)), max(abs(lo), abs(hi)))
+    return mk(I, z3.fpAbs(v.e) if v.mode == "fp" else z3.If(v.e < 0, -v.e, v.e), niv)
 
 
 def order(I, op, a, b):
     m = mode_of(I)
+    ia, ib = iv_of(I, a), iv_of(I, b)
+    if ia is not None and ib is not None:
+        # decided by the intervals alone?
+        if op in (ast.Lt, ast.LtE):
+            if (ia[1] < ib[0]) or (op is ast.LtE and ia[1] <= ib[0]):
+                return True
+            if (ia[0] > ib[1]) or (op is ast.Lt and ia[0] >= ib[1]):
+                return False
+        else:
+            if (ia[0] > ib[1]) or (op is ast.GtE and ia[0] >= ib[1]):
+                return True
+            if (ia[1] < ib[0]) or (op is ast.Gt and ia[1] <= ib[0]):
+                return False
     ae, be = fexpr(I, a), fexpr(I, b)
     if m == "fp":
         e = {ast.Lt: z3.fpLT, ast.LtE: z3.fpLEQ, ast.Gt: z3.fpGT, ast.GtE: z3.fpGEQ}[op](ae, be)
     else:
         e = {ast.Lt: ae < be, ast.LtE: ae <= be, ast.Gt: ae > be, ast.GtE: ae >= be}[op]
-    return I.sbool(e)
+    return _fpcond(I, e)
 
 
 def eq(I, a, b):
     m = mode_of(I)
     ae, be = fexpr(I, a), fexpr(I, b)
-    return I.sbool(z3.fpEQ(ae, be) if m == "fp" else ae == be)
+    return _fpcond(I, z3.fpEQ(ae, be) if m == "fp" else ae == be)
 
 
 def from_int(I, v):
-    return mk(I, fexpr(I, v))
+    if isinstance(v, (SInt, SBool)) and mode_of(I) == "fp":
+        iv = iv_of(I, v)
+        if iv is None:
+            # float(int) raises OverflowError beyond the double range
+            raise Unsupported("float() of an integer of unknown magnitude")
+    return mk(I, fexpr(I, v), iv_of(I, v))
+
+
+def _check_special(I, v):
+    """NaN/inf forks of int()/round()/ceil(): skipped when the interval proves the value finite."""
+    if v.mode != "fp" or _finite(getattr(v, "iv", None)):
+        return
+    if I.path.decide(z3.fpIsNaN(v.e)):
+        I.raise_py(ValueError, "cannot convert float NaN to integer")
+    if I.path.decide(z3.fpIsInf(v.e)):
+        I.raise_py(OverflowError, "cannot convert float infinity to integer")
+
+
+def _int_result(I, v, rm_fp, real_fn):
+    if v.mode == "fp":
+        r = z3.fpToReal(z3.fpRoundToIntegral(rm_fp, v.e))
+        return I.sint(z3.ToInt(r))
+    return I.sint(real_fn(v.e))
 
 
 def to_int(I, v):
     """int(x): truncation toward zero; ValueError on NaN, OverflowError on inf."""
-    if v.mode == "fp":
-        if I.path.decide(z3.fpIsNaN(v.e)):
-            I.raise_py(ValueError, "cannot convert float NaN to integer")
-        if I.path.decide(z3.fpIsInf(v.e)):
-            I.raise_py(OverflowError, "cannot convert float infinity to integer")
-        r = z3.fpToReal(z3.fpRoundToIntegral(RTZ, v.e))
-        return I.sint(z3.ToInt(r))
-    e = v.e
-    return I.sint(z3.If(e >= 0, z3.ToInt(e), -z3.ToInt(-e)))
+    _check_special(I, v)
+    return _int_result(I, v, RTZ, lambda e: z3.If(e >= 0, z3.ToInt(e), -z3.ToInt(-e)))
+
+
+def _round_half_even_real(e):
+    fl = z3.ToInt(e)
+    frac = e - z3.ToReal(fl)
+    half = z3.RealVal(1) / 2
+    return z3.If(frac < half, fl, z3.If(frac > half, fl + 1, z3.If(fl % 2 == 0, fl, fl + 1)))
 
 
 def round_(I, v, nd):
     if nd is not None:
-        raise Unsupported("round(x, ndigits) has no encoding")
+        # round(x, ndigits) returns a float and never raises for float x, int ndigits: no encoding of the
+        # decimal rounding -> an unconstrained float (sound for exception reasoning, useless for values)
+        if not (isinstance(nd, (int, SInt, SBool))):
+            I.raise_py(TypeError, "ndigits must be an integer")
+        I.path.notes.append("opaque:round(x, ndigits)")
+        return fresh_float(I, "round_nd", allow_special=True)
+    _check_special(I, v)
+    return _int_result(I, v, RNE, _round_half_even_real)
+
+
+def ceil(I, v):
+    _check_special(I, v)
+    return _int_result(I, v, RTP, lambda e: -z3.ToInt(-e))
+
+
+def floor(I, v):
+    _check_special(I, v)
+    return _int_result(I, v, RTN, lambda e: z3.ToInt(e))
+
+
+def fresh_float(I, name, allow_special=False):
+    if mode_of(I) == "fp":
+        x = z3.FP(I.path.fresh_name(name), F64)
+        if not allow_special:
+            I.path.assume(z3.Not(z3.fpIsNaN(x)))
+            I.path.assume(z3.Not(z3.fpIsInf(x)))
+        return mk(I, x, None)
+    return mk(I, z3.Real(I.path.fresh_name(name)), None)
+
+
+def log10(I, v):
+    """math.log10: ValueError for x <= 0 or NaN input domain errors; otherwise an unconstrained float
+    (the value is not modelled)."""
+    if not isinstance(v, SFloat):
+        v = from_int(I, v)
+    iv = getattr(v, "iv", None)
+    positive = iv is not None and iv[0] > 0.0
+    if not positive:
+        if I.path.choose(2, "log10!domain") == 0:
+            if v.mode == "fp":
+                I.path.assume(z3.Or(z3.fpIsNaN(v.e), z3.fpLEQ(v.e, z3.FPVal(0.0, F64))))
+                if I.path.check() == z3.unsat:
+                    from .core import PathAbort
+
+                    raise PathAbort()
+            I.raise_py(ValueError, "math domain error")
+        if v.mode == "fp":
+            I.path.assume(z3.fpGT(v.e, z3.FPVal(0.0, F64)))
+    I.path.notes.append("opaque:math.log10")
+    r = fresh_float(I, "log10", allow_special=True)
     if v.mode == "fp":
-        if I.path.decide(z3.fpIsNaN(v.e)):
-            I.raise_py(ValueError, "cannot convert float NaN to integer")
-        if I.path.decide(z3.fpIsInf(v.e)):
-            I.raise_py(OverflowError, "cannot convert float infinity to integer")
-        r = z3.fpToReal(z3.fpRoundToIntegral(RNE, v.e))
-        return I.sint(z3.ToInt(r))
-    e = v.e
-    fl = z3.ToInt(e)
-    frac = e - z3.ToReal(fl)
-    r = z3.If(frac < z3.RealVal("1/2"), fl, z3.If(frac > z3.RealVal("1/2"), fl + 1, z3.If(fl % 2 == 0, fl, fl + 1)))
-    return I.sint(r)
+        I.path.assume(z3.Not(z3.fpIsNaN(r.e)))
+    return r
 
 
 def method(I, v, name, args, kwargs):
@@ -163,12 +353,66 @@ def method(I, v, name, args, kwargs):
         if v.mode == "fp":
             return I.sbool(z3.And(z3.Not(z3.fpIsNaN(v.e)), z3.Not(z3.fpIsInf(v.e)), z3.fpEQ(z3.fpRoundToIntegral(RTZ, v.e), v.e)))
         return I.sbool(z3.ToReal(z3.ToInt(v.e)) == v.e)
+    if name in ("__float__", "real", "conjugate"):
+        return v
     raise Unsupported(f"float method {name}")
 
 
+# ----------------------------------------------------------------------------- struct 'f' / 'd'
+
+_F32_MAX = 3.4028234663852886e38
+
+
 def pack(I, code, v, order):
-    raise Unsupported("struct.pack of float")
+    if mode_of(I) != "fp":
+        raise Unsupported("struct.pack of float in REAL mode")
+    if isinstance(v, (int, float)) and not isinstance(v, bool):
+        import struct as _s
+
+        try:
+            return SBytes.from_concrete(_s.pack((">" if order == "big" else "<") + code, v))
+        except (OverflowError, _s.error) as e:
+            I.raise_py(type(e), *e.args)
+    if isinstance(v, (SInt, SBool)):
+        v = from_int(I, v)
+    if not isinstance(v, SFloat):
+        import struct as _s
+
+        I.raise_py(_s.error, "required argument is not a float")
+    if code == "d":
+        bv = z3.fpToIEEEBV(v.e)
+        n = 8
+    elif code == "f":
+        # CPython: finite doubles whose float32 rounding overflows raise OverflowError
+        iv = getattr(v, "iv", None)
+        if not (iv is not None and _finite(iv) and abs(iv[0]) < _F32_MAX and abs(iv[1]) < _F32_MAX):
+            x32 = z3.fpToFP(RNE, v.e, F32)
+            if I.path.decide(z3.And(z3.Not(z3.fpIsInf(v.e)), z3.fpIsInf(x32))):
+                I.raise_py(OverflowError, "float too large to pack with f format")
+        bv = z3.fpToIEEEBV(z3.fpToFP(RNE, v.e, F32))
+        n = 4
+    else:
+        raise Unsupported("struct code e")
+    segs = []
+    for i in range(n):
+        hi = 8 * (n - i) - 1
+        segs.append(BSeg(z3.BV2Int(z3.Extract(hi, hi - 7, bv), False)))
+    if order == "little":
+        segs.reverse()
+    return SBytes(segs, False)
 
 
 def unpack(I, code, chunk, order):
-    raise Unsupported("struct.unpack of float")
+    if mode_of(I) != "fp":
+        raise Unsupported("struct.unpack of float in REAL mode")
+    n = {"f": 4, "d": 8}.get(code)
+    if n is None:
+        raise Unsupported("struct code e")
+    idx = list(range(n)) if order == "big" else list(range(n - 1, -1, -1))
+    parts = [z3.Int2BV(chunk.at(i), 8) for i in idx]
+    bv = z3.Concat(*parts) if len(parts) > 1 else parts[0]
+    if code == "f":
+        x = z3.fpToFP(RNE, z3.fpBVToFP(bv, F32), F64)
+    else:
+        x = z3.fpBVToFP(bv, F64)
+    return mk(I, x, None)
